@@ -312,3 +312,93 @@ pub fn stress(a: &Args) {
     tr().finish();
     summary(json!({"engine":"holder-stress","seed":seed,"runs":runs,"ops":ops,"events":tr().count()}));
 }
+
+/// Binding A', independent of the shape Holder.tla models: a RANDOM cooperative scheduler over the shim
+/// points. Every thread parks before each atomic operation / cell access; the driver releases one
+/// parked thread at a time, chosen at random, so the logged order is the real order and the
+/// vector-clock monitor can judge any algorithm that goes through the shim.
+pub fn sched_random(a: &Args) {
+    let seed = a.num("seed", 1);
+    let runs = a.num("runs", 200);
+    let _ = TRACE.set(Arc::new(Trace::create(&a.req("out"))));
+    install(true);
+    LOG_SHIM.store(true, Ordering::SeqCst);
+    let mut rng = StdRng::seed_from_u64(seed ^ 0x5c4e_0009);
+    let mut steps = 0u64;
+    let mut stuck = 0u64;
+    for run in 0..runs {
+        let n = rng.random_range(2..=3u64);
+        tr().ev(json!({"ev":"reset","threads":n,"sched":true,"run":run,"random_schedule":true}));
+        let holder: Arc<SingletonHolder<Val>> = Arc::new(SingletonHolder::new());
+        sched_enable(true);
+        let done: Vec<Arc<AtomicBool>> = (0..n).map(|_| Arc::new(AtomicBool::new(false))).collect();
+        let mut tids = vec![];
+        let mut joins = vec![];
+        for role in 1..=n {
+            let h = holder.clone();
+            let d = done[role as usize - 1].clone();
+            // programs favour the racy shapes: setters first, readers overlapping
+            let k = rng.random_range(1..=3);
+            let prog: Vec<&'static str> = (0..k).map(|i| if i == 0 && role <= 2 && rng.random_bool(0.7) { "set" } else { ["set", "get", "get", "is_set"][rng.random_range(0..4)] }).collect();
+            let (ttx, trx) = mpsc::channel();
+            joins.push(std::thread::spawn(move || {
+                ROLE.with(|r| r.set(role));
+                ttx.send(tid()).unwrap();
+                for (i, op) in prog.iter().enumerate() {
+                    run_op(&h, role, op, role * 10 + i as u64 + 1);
+                }
+                d.store(true, Ordering::SeqCst);
+                crate::queue::sched().cv.notify_all();
+            }));
+            tids.push(trx.recv().unwrap());
+        }
+        // release one parked thread at a time
+        loop {
+            let all_done = done.iter().all(|d| d.load(Ordering::SeqCst));
+            if all_done {
+                break;
+            }
+            // wait until every unfinished thread is parked
+            let ready = wait_sched(STEP_TIMEOUT, |g| {
+                let mut parked = vec![];
+                for (i, t) in tids.iter().enumerate() {
+                    if done[i].load(Ordering::SeqCst) {
+                        continue;
+                    }
+                    if g.parked.contains_key(t) && !g.go.contains_key(t) {
+                        parked.push(*t);
+                    } else {
+                        return None;
+                    }
+                }
+                Some(parked)
+            });
+            match ready {
+                Some(p) if !p.is_empty() => {
+                    let t = p[rng.random_range(0..p.len())];
+                    go(t);
+                    steps += 1;
+                }
+                Some(_) => {}
+                None => {
+                    if done.iter().all(|d| d.load(Ordering::SeqCst)) {
+                        break;
+                    }
+                    stuck += 1;
+                    tr().ev(json!({"ev":"note","stuck":true}));
+                    break;
+                }
+            }
+        }
+        sched_enable(false);
+        for j in joins {
+            let t0 = Instant::now();
+            while !j.is_finished() && t0.elapsed() < Duration::from_secs(5) {
+                std::thread::sleep(Duration::from_micros(100));
+            }
+        }
+    }
+    cadence::verif::install(None);
+    tr().finish();
+    summary(json!({"engine":"holder-sched","seed":seed,"runs":runs,"steps":steps,"stuck":stuck,"events":tr().count()}));
+}
